@@ -100,6 +100,11 @@ CHECKS["C07"] = dict(engine="Handshake", design="§4 C07",
     note=HS_NOTE + " Rogue peers are harness-built crypto/tls servers that hold the server's storage (so they can mint from the real roots where the case calls for it).",
     technique="TLA+ spec (Handshake.tla node side) + TLC-generated histories + rogue-server replay + real-time rotation histories + TLC trace validation")
 
+CHECKS["C15"] = dict(engine="OptSlice", design="§4 C15",
+    text="OptSlice.tla makes Go's slice/append aliasing explicit (shared backing array, per-connection headers, in-place append iff spare capacity) for the handshake programs of protocol/tls.go and the token flow; TLC checks Isolation and NoSharedWrite for every interleaving of two connections per kind pair with per-connection copies, and shows that sharing the application's slice or a listener-level copy with spare capacity violates them. On the real listener, TLC's counterexample shape is forced deterministically: connection A is parked at a harness-owned gate (storage Remove of its token, before/after the server-certificate callback) while B completes on a second Accept goroutine; outcomes, reported protocols/state and stored records are compared with handling alone, the application's slice is checked for writes, free-running mixes run under the race detector; lines are judged by OptSliceTrace.tla.",
+    note="Trusted: Go race detector, crypto/tls, TLC. Interleavings are forced only at gate points the harness owns; finer ones are covered on the model and by the race detector.",
+    technique="TLA+ spec (OptSlice.tla) + TLC exhaustive interleavings with negative witnesses + gated two-connection replay on the real listener + race detector + TLC trace validation")
+
 PENDING = {}
 for i in range(1, 21):
     pid = "C%02d" % i
